@@ -677,7 +677,23 @@ def limiter_model(ctx):
     from ..consteval import run_function, Unfoldable, Raised, ExternalRef, LocalFn, fold, TOP
     ctx._limiter_model = None
     mod = ctx.ix.module(HANDLELIM)
-    meths = {q.split('.')[-1]: d[0] for q, d in mod.defs.items() if q.startswith(CLS + '.') and isinstance(d[0], ast.FunctionDef)}
+    # the methods of the class and, below them, those it inherits from base classes of the same module (a private registry / mixin the class was split into)
+    cdef0 = ctx.ix.cls(HANDLELIM, CLS)
+    mro, todo = [], [cdef0]
+    while todo:
+        c_ = todo.pop(0)
+        mro.append(c_)
+        for b_ in c_.bases:
+            if isinstance(b_, ast.Name):
+                bd = [x for x in mod.tree.body if isinstance(x, ast.ClassDef) and x.name == b_.id]
+                todo.extend(bd[:1])
+    meths, owner = {}, {}
+    for c_ in mro:
+        for st_ in c_.body:
+            if isinstance(st_, ast.FunctionDef) and st_.name not in meths:
+                meths[st_.name] = st_
+                owner[st_.name] = c_
+    inherited = {c_.name: {st_.name: st_ for st_ in c_.body if isinstance(st_, ast.FunctionDef)} for c_ in mro}
     if 'write' not in meths or '__init__' not in meths or 'close' not in meths:
         return None
     seqs = [('A',), ('A', 'A'), ('A', 'B', 'A'), ('A', 'B', 'C', 'A'), ('A', 'B', 'A', 'C', 'B'), ('A', 'B', 'C', 'B', 'A'), ('A', 'A', 'B', 'B', 'A')]
@@ -693,8 +709,8 @@ def limiter_model(ctx):
             return sum(1 for h in self.handles if h['open'])
 
     def make_hook(world, env_root):
-        def call_method(ev, name, call, env):
-            m = meths[name]
+        def call_method(ev, name, call, env, m=None):
+            m = m if m is not None else meths[name]
             args = ['<self>'] + [ev.ev(x, env) for x in call.args]
             kw = {k.arg: ev.ev(k.value, env) for k in call.keywords if k.arg}
             out = {}
@@ -733,6 +749,17 @@ def limiter_model(ctx):
                 return None
             if d in ('os.path.exists', 'os.path.isfile'):
                 return ev.ev(call.args[0], env) in world.files
+            if d in ('logging.getLogger',) or d.startswith('logger.') or d.startswith('logging.'):
+                return None
+            if isinstance(call.func, ast.Attribute) and isinstance(call.func.value, ast.Call) and dotted(call.func.value.func) == 'super':
+                # super().m(..): the next definition of m behind the class that defines the running method
+                names_ = [c_.name for c_ in mro]
+                for cn_ in names_[1:]:
+                    if call.func.attr in inherited[cn_]:
+                        return call_method(ev, call.func.attr, call, env, m=inherited[cn_][call.func.attr])
+                if call.func.attr == '__init__':
+                    return None
+                return NotImplemented
             if isinstance(call.func, ast.Attribute):
                 if d.startswith('self.') and d[5:] in meths and '.' not in d[5:]:
                     return call_method(ev, d[5:], call, env)
@@ -775,12 +802,12 @@ def limiter_model(ctx):
                 out = {}
                 # class level constants, the methods as bound values (key functions), the two openers as values
                 base_env = {'gzip.open': ExternalRef('gzip.open'), 'open': ExternalRef('open')}
-                cdef = ctx.ix.cls(HANDLELIM, CLS)
-                for st_ in cdef.body:
-                    if isinstance(st_, ast.Assign) and len(st_.targets) == 1 and isinstance(st_.targets[0], ast.Name):
-                        v_ = fold(st_.value, dict(base_env))
-                        if v_ is not TOP:
-                            base_env['self.' + st_.targets[0].id] = v_
+                for cdef in reversed(mro):
+                    for st_ in cdef.body:
+                        if isinstance(st_, ast.Assign) and len(st_.targets) == 1 and isinstance(st_.targets[0], ast.Name):
+                            v_ = fold(st_.value, dict(base_env))
+                            if v_ is not TOP:
+                                base_env['self.' + st_.targets[0].id] = v_
                 for mn_, md_ in meths.items():
                     base_env.setdefault('self.' + mn_, LocalFn(md_, env, bound='<self>'))
                 run_function(meths['__init__'], ['<self>'], {'maxHandles': maxh, 'pruneEvery': prune_every}, env=dict(base_env), budget=20000, call_hook=hook, out_scope=out)
